@@ -12,8 +12,8 @@ import (
 
 func init() {
 	register(&Check{
-		ID:   "C10",
-		Rule: "moments: every moment from the Xiaohan instant of the base year (1900-01-06 02:03:57 for the default) to 31 December of the clock's year x the 13 slot entries (00:00, 01:00, 03:00, ..., 23:00) x day-boundary convention {1,2} (thorough: all days; quick: 1900, 1984, the last 2 years), plus for every Jie instant t in the whole span the moments {t-1s, t, start of t's slot, end of t's slot}; base years {1, 1600, 1984, 2000} on a stride of the 1984..now span. For each moment the four pillars are read from EightChar under the convention and fed to the reverse lookup; oracle: some returned moment lies on the same day in the same two-hour slot (23:00-00:59 is one slot under convention 1), every returned moment converts forward to exactly those pillars under that convention and is not before the base year, and the list is strictly increasing. non-trivial = moments whose slot contains a Jie instant, rat-slot moments, Lichun-day moments, and non-default base years",
+		ID:     "C10",
+		Rule:   "moments: every moment from the Xiaohan instant of the base year (1900-01-06 02:03:57 for the default) to 31 December of the clock's year x the 13 slot entries (00:00, 01:00, 03:00, ..., 23:00) x day-boundary convention {1,2} (thorough: all days; quick: 1900, 1984, the last 2 years), plus for every Jie instant t in the whole span the moments {t-1s, t, start of t's slot, end of t's slot}; base years {1, 1600, 1984, 2000} on a stride of the 1984..now span. For each moment the four pillars are read from EightChar under the convention and fed to the reverse lookup; oracle: some returned moment lies on the same day in the same two-hour slot (23:00-00:59 is one slot under convention 1), every returned moment converts forward to exactly those pillars under that convention and is not before the base year, and the list is strictly increasing. non-trivial = moments whose slot contains a Jie instant, rat-slot moments, Lichun-day moments, and non-default base years",
 		Assume: []string{"the wall clock's year is read once at start and once at the end of each worker; a roll-over discards the last year and marks the run inexhaustive", "forward conversion (EightChar) is taken as given here; its correctness is C05's subject"},
 		Shards: func(tier string, seed int64) []Shard {
 			now := time.Now().Local().Year()
